@@ -602,5 +602,589 @@ theorem lex_leaf (ual : List Nat) (t : Tmpl) (hleaf : t.isList = false) (hw : t.
     rw [hv, hr]
     simp [tk]
 
+
+/-- the own variable slots of a list carry valid names or ellipses -/
+def ownValid : Slots → Bool
+  | .nil => true
+  | .item _ r => ownValid r
+  | .var n r => (isEllipsis n || isValidVarName n) && ownValid r
+
+theorem ownValid_of_listOwnOk : ∀ (xs : Slots) (pos : Nat) (e : Bool), listOwnOk xs pos e = true → ownValid xs = true
+  | .nil, _, _, _ => rfl
+  | .item _ r, pos, e, h => by simpa [ownValid] using ownValid_of_listOwnOk r (pos + 1) e (by simpa [listOwnOk] using h)
+  | .var n r, pos, e, h => by
+    simp only [listOwnOk] at h
+    by_cases hv : isValidVarName n = true
+    · rw [if_pos hv] at h
+      simp [ownValid, hv, ownValid_of_listOwnOk r (pos + 1) e h]
+    · rw [if_neg hv] at h
+      by_cases he : isEllipsis n = true
+      · rw [if_pos he] at h
+        simp only [Bool.and_eq_true] at h
+        simp [ownValid, he, ownValid_of_listOwnOk r (pos + 1) true h.2]
+      · rw [if_neg he] at h; cases h
+
+theorem blanks_append {a b : Bytes} (ha : ∀ c ∈ a, isBlank c = true) (hb : ∀ c ∈ b, isBlank c = true) :
+    ∀ c ∈ a ++ b, isBlank c = true := by
+  intro c hc
+  rcases List.mem_append.mp hc with h | h
+  · exact ha c h
+  · exact hb c h
+
+theorem blanks_lf : ∀ c ∈ ([10] : Bytes), isBlank c = true := by simp [isBlank]
+theorem blanks_sp2 : ∀ c ∈ ([32, 32] : Bytes), isBlank c = true := by simp [isBlank]
+
+theorem lex_congr {ual : List Nat} {m : Mode} {x y : Bytes} (h : x = y) :
+    (lexFrom ual m x).map eraseT = (lexFrom ual m y).map eraseT := by rw [h]
+
+mutual
+/-- **Lexer half of the print → parse round trip for items**: the printed form of a well-formed
+tree, after any blanks, is lexed into the token stream `itemToks` of the parser half. -/
+theorem lex_tree (ual : List Nat) : ∀ (t : Tmpl) (level : Nat) (ws more : Bytes), (∀ c ∈ ws, isBlank c = true) →
+    t.wf = true → cleanT t = true → namesPlainT t = true →
+    (lexFrom ual .text (ws ++ (t.printAt level ++ more))).map eraseT = itemToks t ++ (lexFrom ual .text more).map eraseT
+  | .list xs, level, ws, more, hws, hw, hc, hpl => by
+    have hwf := hw
+    simp only [Tmpl.wf, Bool.and_eq_true, decide_eq_true_eq] at hwf
+    have hind := rep_blank level
+    simp only [Tmpl.printAt, itemToks]
+    by_cases h0 : xs.len = 0
+    · have hx : xs = .nil := by
+        cases xs with
+        | nil => rfl
+        | item t r => simp [Slots.len] at h0
+        | var n r => simp [Slots.len] at h0
+      subst hx
+      simp only [Slots.len, if_true, str_L0, Slots.hasVar, Bool.false_eq_true, if_false, slotsToks]
+      refine (lex_congr (y := (ws ++ rep level [32, 32]) ++ 60 :: ([76] ++ 91 :: (decDigits 0 ++ 93 :: ([] ++ 62 :: more)))) (by simp [decDigits_small 0 (by decide)])).trans ?_
+      rw [lex_lab ual _ _ (blanks_append hws hind), lex_type ual [76] typeName_L 91 _ (by decide), lex_sizeTok ual 0 _,
+        lex_rab ual [] more (by simp)]
+      rfl
+    · rw [if_neg h0]
+      have hslots := lex_slots ual xs level [10] (rep level [32, 32] ++ 62 :: more) blanks_lf hwf.1.1.2
+        (by simpa [cleanT] using hc) (by simpa [namesPlainT] using hpl) (ownValid_of_listOwnOk xs 0 false hwf.1.2)
+      have hrab := lex_rab ual (rep level [32, 32]) more hind
+      by_cases hv : xs.hasVar = true
+      · simp only [hv, if_true, str_L]
+        refine (lex_congr (y := (ws ++ rep level [32, 32]) ++ 60 :: ([76] ++ 10 :: (xs.printAt level ++ (rep level [32, 32] ++ 62 :: more)))) (by simp)).trans ?_
+        rw [lex_lab ual _ _ (blanks_append hws hind), lex_type ual [76] typeName_L 10 _ (by decide)]
+        have e2 : 10 :: (xs.printAt level ++ (rep level [32, 32] ++ 62 :: more)) =
+            [10] ++ (xs.printAt level ++ (rep level [32, 32] ++ 62 :: more)) := rfl
+        rw [e2, hslots, hrab]
+        simp
+      · have hv' : xs.hasVar = false := by simpa using hv
+        simp only [hv', Bool.false_eq_true, if_false, str_L]
+        refine (lex_congr (y := (ws ++ rep level [32, 32]) ++ 60 :: ([76] ++ 91 :: (decDigits xs.len ++ 93 :: ([10] ++ (xs.printAt level ++ (rep level [32, 32] ++ 62 :: more)))))) (by simp)).trans ?_
+        rw [lex_lab ual _ _ (blanks_append hws hind), lex_type ual [76] typeName_L 91 _ (by decide), lex_sizeTok ual xs.len _,
+          hslots, hrab]
+        simp
+  | .ascii sv, level, ws, more, hws, hw, hc, hpl => by
+    rw [blank_run_invisible ual .text ws _ hws]; exact lex_leaf ual _ rfl hw hc hpl level more
+  | .asciiVar n mn mx, level, ws, more, hws, hw, hc, hpl => by
+    rw [blank_run_invisible ual .text ws _ hws]; exact lex_leaf ual _ rfl hw hc hpl level more
+  | .binary zs, level, ws, more, hws, hw, hc, hpl => by
+    rw [blank_run_invisible ual .text ws _ hws]; exact lex_leaf ual _ rfl hw hc hpl level more
+  | .boolean zs, level, ws, more, hws, hw, hc, hpl => by
+    rw [blank_run_invisible ual .text ws _ hws]; exact lex_leaf ual _ rfl hw hc hpl level more
+  | .int w zs, level, ws, more, hws, hw, hc, hpl => by
+    rw [blank_run_invisible ual .text ws _ hws]; exact lex_leaf ual _ rfl hw hc hpl level more
+  | .uint w zs, level, ws, more, hws, hw, hc, hpl => by
+    rw [blank_run_invisible ual .text ws _ hws]; exact lex_leaf ual _ rfl hw hc hpl level more
+  | .float w zs, level, ws, more, hws, hw, hc, hpl => by simp [cleanT] at hc
+  | .empty, level, ws, more, hws, hw, hc, hpl => by simp [cleanT] at hc
+theorem lex_slots (ual : List Nat) : ∀ (xs : Slots) (level : Nat) (ws more : Bytes), (∀ c ∈ ws, isBlank c = true) →
+    xs.wfAll = true → cleanS xs = true → namesPlainS xs = true → ownValid xs = true →
+    (lexFrom ual .text (ws ++ (xs.printAt level ++ more))).map eraseT = slotsToks xs ++ (lexFrom ual .text more).map eraseT
+  | .nil, level, ws, more, hws, _, _, _, _ => by
+    simp only [Slots.printAt, slotsToks, List.nil_append]
+    exact blank_run_invisible ual .text ws more hws
+  | .item t r, level, ws, more, hws, hw, hc, hpl, hov => by
+    simp only [Slots.wfAll, Bool.and_eq_true] at hw
+    simp only [cleanS, Bool.and_eq_true] at hc
+    simp only [namesPlainS, Bool.and_eq_true] at hpl
+    simp only [ownValid] at hov
+    have hr := lex_slots ual r level [10] more blanks_lf hw.2 hc.2 hpl.2 hov
+    simp only [Slots.printAt, slotsToks]
+    by_cases hl : t.isList = true
+    · simp only [hl, if_true]
+      refine (lex_congr (y := ws ++ (Tmpl.printAt (level + 1) t ++ ([10] ++ (r.printAt level ++ more)))) (by simp)).trans ?_
+      rw [lex_tree ual t (level + 1) ws _ hws hw.1 hc.1 hpl.1, hr]
+      simp
+    · simp only [hl, Bool.false_eq_true, if_false]
+      refine (lex_congr (y := (ws ++ (rep level [32, 32] ++ [32, 32])) ++ (Tmpl.printAt 0 t ++ ([10] ++ (r.printAt level ++ more)))) (by simp)).trans ?_
+      rw [lex_tree ual t 0 _ _ (blanks_append hws (blanks_append (rep_blank level) blanks_sp2)) hw.1 hc.1 hpl.1, hr]
+      simp
+  | .var n r, level, ws, more, hws, hw, hc, hpl, hov => by
+    simp only [Slots.wfAll] at hw
+    simp only [cleanS] at hc
+    simp only [namesPlainS, Bool.and_eq_true, Bool.or_eq_true] at hpl
+    simp only [ownValid, Bool.and_eq_true, Bool.or_eq_true] at hov
+    have hr := lex_slots ual r level [10] more blanks_lf hw hc hpl.2 hov.2
+    have hbl := blanks_append hws (blanks_append (rep_blank level) blanks_sp2)
+    simp only [Slots.printAt, slotsToks]
+    by_cases he : isEllipsis n = true
+    · simp only [he, if_true, str_dots]
+      refine (lex_congr (y := (ws ++ (rep level [32, 32] ++ [32, 32])) ++ ([46, 46, 46] ++ ([10] ++ (r.printAt level ++ more)))) (by simp)).trans ?_
+      rw [lex_text_tok ual _ [46, 46, 46] _ .ellipsis [46, 46, 46] .text 46 [46, 46] hbl rfl (by decide) (by decide) (by decide)
+        (fun p hp => stepText_ellipsis ual p (r.printAt level ++ more) (by simpa using hp)), hr]
+      rfl
+    · have he' : isEllipsis n = false := by simpa using he
+      simp only [he', Bool.false_eq_true, if_false]
+      have hvalid : isValidVarName n = true := by rcases hov.1 with h | h; exact absurd h he; exact h
+      have hplain : plainName n = true := by rcases hpl.1 with h | h; exact absurd h he; exact h
+      obtain ⟨b, rr, hn, hb, hs, h128, _⟩ := lexVal_variable n hvalid hplain
+      refine (lex_congr (y := (ws ++ (rep level [32, 32] ++ [32, 32])) ++ (n ++ ([10] ++ (r.printAt level ++ more)))) (by simp)).trans ?_
+      rw [lex_text_tok ual _ n _ .variable n .text b rr hbl hn hb hs h128
+        (fun p hp => stepText_variable ual p n 10 (r.printAt level ++ more) (by simpa using hp) hvalid hplain (Or.inr (Or.inr rfl))), hr]
+      rfl
+end
+
+
+/-! ### the header -/
+
+theorem upper_digits (ds : Bytes) (h : ∀ c ∈ ds, isDigitB c = true) : upper ds = ds := by
+  induction ds with
+  | nil => rfl
+  | cons c r ih =>
+    have hc := h c (by simp)
+    simp only [isDigitB, Bool.and_eq_true, decide_eq_true_eq] at hc
+    have : toUpperB c = c := by
+      unfold toUpperB isLowerB
+      have : ¬ ((decide (97 ≤ c) && decide (c ≤ 122)) = true) := by simp; omega
+      rw [if_neg this]
+    simp only [upper, List.map_cons, this] at ih ⊢
+    rw [ih (fun x hx => h x (by simp [hx]))]
+
+/-- `S<digits>F<digits>` followed by a blank -/
+theorem stepHeader_sf (p : Pos) (st fn : Nat) (more : Bytes) (hp : p.rest = 83 :: (decDigits st ++ 70 :: (decDigits fn ++ 32 :: more))) :
+    stepHeader p = emit .streamFunction (83 :: (decDigits st ++ 70 :: decDigits fn)) (83 :: (decDigits st ++ 70 :: decDigits fn)) .header p := by
+  obtain ⟨hd1, _, hne1⟩ := digits_are st
+  obtain ⟨hd2, _, hne2⟩ := digits_are fn
+  have hs1 : spanB isDigitB (decDigits st ++ 70 :: (decDigits fn ++ 32 :: more)) = (decDigits st, 70 :: (decDigits fn ++ 32 :: more)) :=
+    spanB_stop' isDigitB _ 70 _ hd1 (by decide)
+  have hs2 : spanB isDigitB (decDigits fn ++ 32 :: more) = (decDigits fn, 32 :: more) :=
+    spanB_stop' isDigitB _ 32 _ hd2 (by decide)
+  have he1 : (decDigits st).isEmpty = false := by cases h : decDigits st <;> simp_all
+  have he2 : (decDigits fn).isEmpty = false := by cases h : decDigits fn <;> simp_all
+  have hm : matchSF (83 :: (decDigits st ++ 70 :: (decDigits fn ++ 32 :: more))) = some (83 :: (decDigits st ++ 70 :: decDigits fn)) := by
+    simp [matchSF, hs1, hs2, he1, he2]
+  have hup : upper (83 :: (decDigits st ++ 70 :: decDigits fn)) = 83 :: (decDigits st ++ 70 :: decDigits fn) := by
+    have h1 := upper_digits _ hd1
+    have h2 := upper_digits _ hd2
+    simp only [upper, List.map_cons, List.map_append] at h1 h2 ⊢
+    rw [h1, h2]
+    rfl
+  unfold stepHeader
+  rw [hp]
+  have hsw : startsWith [47, 47] (83 :: (decDigits st ++ 70 :: (decDigits fn ++ 32 :: more))) = false := by
+    cases h : decDigits st <;> simp [startsWith]
+  simp only [hsw, Bool.false_eq_true, if_false, hm, hup]
+
+theorem stepHeader_W (p : Pos) (more : Bytes) (hp : p.rest = 87 :: more) :
+    stepHeader p = emit .waitBit [87] [87] .header p := by
+  unfold stepHeader
+  rw [hp]
+  cases more <;> simp [startsWith, matchSF, matchW, upper, toUpperB, isLowerB]
+
+theorem stepHeader_optW (p : Pos) (more : Bytes) (hp : p.rest = 91 :: 87 :: 93 :: more) :
+    stepHeader p = emit .waitBit [91, 87, 93] [91, 87, 93] .header p := by
+  unfold stepHeader
+  rw [hp]
+  simp [startsWith, matchSF, matchW, upper, toUpperB, isLowerB]
+
+theorem stepHeader_dir (p : Pos) (dir more : Bytes) (hd : dir = dirHE ∨ dir = dirEH ∨ dir = dirBoth)
+    (hp : p.rest = dir ++ more) : stepHeader p = emit .direction dir dir .header p := by
+  unfold stepHeader
+  rw [hp]
+  rcases hd with rfl | rfl | rfl <;>
+    simp [dirHE, dirEH, dirBoth, startsWith, matchSF, matchW, matchDir, upper, toUpperB, isLowerB]
+
+theorem stepHeader_msgEnd (p : Pos) (more : Bytes) (hp : p.rest = 46 :: more) :
+    stepHeader p = emit .msgEnd [46] [46] .header p := by
+  unfold stepHeader
+  rw [hp]
+  cases more <;> simp [startsWith, matchSF, matchW, matchDir]
+
+theorem stepHeader_lab (p : Pos) (more : Bytes) (hp : p.rest = 60 :: more) :
+    stepHeader p = emit .lab [60] [60] .text p := by
+  unfold stepHeader
+  rw [hp]
+  cases more <;> simp [startsWith, matchSF, matchW, matchDir]
+
+
+theorem lex_header_tok (ual : List Nat) (ws text more : Bytes) (k : Kind) (v : Bytes) (m' : Mode) (b : Nat) (r : Bytes)
+    (hws : ∀ c ∈ ws, isBlank c = true) (htext : text = b :: r)
+    (hb : isBlank b = false) (hs : Utf8.isSpace b = false) (h128 : b < 128)
+    (hstep : ∀ p : Pos, p.rest = text ++ more → stepHeader p = emit k v text m' p) :
+    (lexFrom ual .header (ws ++ (text ++ more))).map eraseT = tk k v :: (lexFrom ual m' more).map eraseT := by
+  rw [blank_run_invisible ual .header ws _ hws]
+  have hcons : text ++ more = b :: (r ++ more) := by rw [htext]; rfl
+  rw [hcons]
+  exact lexFrom_header_emit ual k v text m' b (r ++ more) more hcons hb hs h128
+    (fun p hp => hstep p (by rw [hp, hcons]))
+
+theorem lex_eof (ual : List Nat) (m : Mode) : (lexFrom ual m []).map eraseT = [eofTok] := by
+  cases m <;> rfl
+
+/-- the header lexer reads the name as one name token (the condition under which a message name
+can be written in SML at all) -/
+def NameOK (name : Bytes) : Prop :=
+  name = [] ∨ ∀ (ual : List Nat) (more : Bytes),
+    (lexFrom ual .header ([32] ++ (name ++ 10 :: more))).map eraseT =
+      tk .msgName name :: (lexFrom ual .header (10 :: more)).map eraseT
+
+theorem printAt0_head (t : Tmpl) (hc : cleanT t = true) : ∃ r, t.printAt 0 = 60 :: r := by
+  cases t with
+  | list xs =>
+    simp only [Tmpl.printAt, rep, List.nil_append]
+    split
+    · exact ⟨_, by rw [str_L0]⟩
+    · exact ⟨_, by rw [str_L]; rfl⟩
+  | ascii sv =>
+    simp only [Tmpl.printAt]
+    split
+    · exact ⟨_, by rw [str_A0]⟩
+    · exact ⟨_, by rw [str_A]; rfl⟩
+  | asciiVar n mn mx => exact ⟨_, by simp only [Tmpl.printAt]; rw [str_A]; rfl⟩
+  | binary zs => simp only [Tmpl.printAt, printArray]; split <;> exact ⟨_, rfl⟩
+  | boolean zs => simp only [Tmpl.printAt, printArray]; split <;> exact ⟨_, rfl⟩
+  | int w zs => simp only [Tmpl.printAt, printArray]; split <;> exact ⟨_, rfl⟩
+  | uint w zs => simp only [Tmpl.printAt, printArray]; split <;> exact ⟨_, rfl⟩
+  | float w zs => simp [cleanT] at hc
+  | empty => simp [cleanT] at hc
+
+/-- the first `<` of a message text is read in the header state and opens the text state -/
+theorem lex_header_lab (ual : List Nat) (ws r : Bytes) (hws : ∀ c ∈ ws, isBlank c = true) :
+    (lexFrom ual .header (ws ++ 60 :: r)).map eraseT = (lexFrom ual .text (60 :: r)).map eraseT := by
+  have h1 := lex_header_tok ual ws [60] r .lab [60] .text 60 [] hws rfl (by decide) (by decide) (by decide)
+    (fun p hp => stepHeader_lab p r (by simpa using hp))
+  have h2 := lex_lab ual [] r (by simp)
+  simp only [List.cons_append, List.nil_append] at h1 h2
+  rw [h1, h2]
+
+
+theorem str_W : str " W" = [32, 87] := by decide +kernel
+theorem str_optW : str " [W]" = [32, 91, 87, 93] := by decide +kernel
+
+/-- the text after the header: the terminator alone, or the item and the terminator -/
+theorem lex_message_tail (ual : List Nat) (it : Tmpl)
+    (hit : it = .empty ∨ (it.wf = true ∧ cleanT it = true ∧ namesPlainT it = true)) :
+    (lexFrom ual .header (if it.isEmpty then [10, 46] else [10] ++ it.print ++ [10, 46])).map eraseT =
+      itemToks it ++ [tk .msgEnd [46], eofTok] := by
+  rcases hit with he | ⟨hw, hc, hpl⟩
+  · subst he
+    simp only [Tmpl.isEmpty, if_true, itemToks, List.nil_append]
+    have h1 := lex_header_tok ual [10] [46] [] .msgEnd [46] .header 46 [] blanks_lf rfl (by decide) (by decide) (by decide)
+      (fun p hp => stepHeader_msgEnd p [] (by simpa using hp))
+    simp only [List.cons_append, List.nil_append, List.append_nil] at h1
+    rw [h1, lex_eof]
+  · have hne : it.isEmpty = false := by cases it <;> simp_all [Tmpl.isEmpty, cleanT]
+    simp only [hne, Bool.false_eq_true, if_false, Tmpl.print]
+    obtain ⟨r, hr⟩ := printAt0_head it hc
+    have e1 : [10] ++ Tmpl.printAt 0 it ++ [10, 46] = [10] ++ 60 :: (r ++ [10, 46]) := by rw [hr]; simp
+    rw [e1, lex_header_lab ual [10] _ blanks_lf]
+    have e2 : 60 :: (r ++ [10, 46]) = [] ++ (Tmpl.printAt 0 it ++ [10, 46]) := by rw [hr]; rfl
+    rw [e2, lex_tree ual it 0 [] [10, 46] (by simp) hw hc hpl]
+    have h1 := lex_text_tok ual [10] [46] [] .msgEnd [46] .header 46 [] blanks_lf rfl (by decide) (by decide) (by decide)
+      (fun p hp => stepText_msgEnd ual p [] (by simpa using hp) (Or.inl rfl))
+    simp only [List.cons_append, List.nil_append, List.append_nil] at h1
+    rw [h1, lex_eof]
+
+/-- **Lexer half of the print → parse round trip for a message**: the printed form of a valid
+message whose name the header lexer reads as one name, whose item is well formed, float-free and
+whose variable names are not keywords, is lexed into the token stream `msgToks` of the parser
+half (positions aside), closed by the EOF token. -/
+theorem lex_message (ual : List Nat) (m : Msg) (hv : m.valid = true) (hname : NameOK m.name)
+    (hit : m.item = .empty ∨ (m.item.wf = true ∧ cleanT m.item = true ∧ namesPlainT m.item = true)) :
+    (lexFrom ual .header m.print).map eraseT = msgToks m ++ [eofTok] := by
+  have hvv := hv
+  simp only [Msg.valid, Bool.and_eq_true, decide_eq_true_eq, Bool.not_eq_true', Bool.and_eq_false_iff,
+    Bool.or_eq_true, beq_iff_eq] at hvv
+  obtain ⟨⟨⟨⟨⟨⟨⟨_, hst⟩, hfn⟩, _⟩, hwb⟩, _⟩, _⟩, hdir⟩ := hvv
+  have hdir' : m.direction = dirHE ∨ m.direction = dirEH ∨ m.direction = dirBoth := by
+    rcases hdir with (h | h) | h
+    · exact Or.inl h
+    · exact Or.inr (Or.inl h)
+    · exact Or.inr (Or.inr h)
+  have hds : intDec m.stream = decDigits m.stream.toNat := natAbs_intDec_nonneg _ hst.1
+  have hdf : intDec m.function = decDigits m.function.toNat := natAbs_intDec_nonneg _ hfn.1
+  -- the text after the header
+  have htail := lex_message_tail ual m.item hit
+  -- the name part
+  have hnamePart : ∀ tail : Bytes,
+      (lexFrom ual .header ((if m.name.isEmpty then [] else 32 :: m.name) ++ 10 :: tail)).map eraseT =
+        (if m.name.isEmpty then [] else [tk .msgName m.name]) ++ (lexFrom ual .header (10 :: tail)).map eraseT := by
+    intro tail
+    by_cases he : m.name.isEmpty = true
+    · simp [he]
+    · simp only [he, Bool.false_eq_true, if_false]
+      rcases hname with h | h
+      · rw [h] at he; simp at he
+      · have := h ual tail
+        simpa using this
+  -- the direction part
+  have hdirPart : ∀ tail : Bytes, (lexFrom ual .header ([32] ++ (m.direction ++ tail))).map eraseT =
+      tk .direction m.direction :: (lexFrom ual .header tail).map eraseT := by
+    intro tail
+    obtain ⟨b, r, hbr, hb1, hb2, hb3⟩ : ∃ b r, m.direction = b :: r ∧ isBlank b = false ∧ Utf8.isSpace b = false ∧ b < 128 := by
+      rcases hdir' with h | h | h <;> rw [h] <;> exact ⟨72, _, rfl, by decide, by decide, by decide⟩
+    exact lex_header_tok ual [32] m.direction tail .direction m.direction .header b r (by simp [isBlank]) hbr hb1 hb2 hb3
+      (fun p hp => stepHeader_dir p m.direction tail hdir' hp)
+  -- assemble
+  have hprint : m.print = 83 :: (decDigits m.stream.toNat ++ 70 :: (decDigits m.function.toNat ++
+      ((if m.waitBit == 1 then [32, 87] else if m.waitBit == 2 then [32, 91, 87, 93] else []) ++
+        ([32] ++ (m.direction ++ ((if m.name.isEmpty then [] else 32 :: m.name) ++
+          (if m.item.isEmpty then [10, 46] else [10] ++ m.item.print ++ [10, 46]))))))) := by
+    unfold Msg.print Msg.header
+    rw [hds, hdf, str_W, str_optW]
+    split <;> simp
+  have hsf : ∀ more : Bytes, (lexFrom ual .header (83 :: (decDigits m.stream.toNat ++ 70 :: (decDigits m.function.toNat ++ 32 :: more)))).map eraseT =
+      sfTok m.stream.toNat m.function.toNat :: (lexFrom ual .header (32 :: more)).map eraseT := by
+    intro more
+    have := lex_header_tok ual [] (83 :: (decDigits m.stream.toNat ++ 70 :: decDigits m.function.toNat)) (32 :: more)
+      .streamFunction (83 :: (decDigits m.stream.toNat ++ 70 :: decDigits m.function.toNat)) .header 83 _ (by simp) rfl
+      (by decide) (by decide) (by decide)
+      (fun p hp => stepHeader_sf p _ _ more (by simpa using hp))
+    simpa [sfTok] using this
+  rw [hprint]
+  unfold msgToks
+  -- everything after the optional wait bit
+  obtain ⟨tl, hT⟩ : ∃ tl, (if m.item.isEmpty then [10, 46] else [10] ++ m.item.print ++ [10, 46]) = 10 :: tl := by
+    split <;> exact ⟨_, rfl⟩
+  have hrest : (lexFrom ual .header ([32] ++ (m.direction ++ ((if m.name.isEmpty then [] else 32 :: m.name) ++
+      (if m.item.isEmpty then [10, 46] else [10] ++ m.item.print ++ [10, 46]))))).map eraseT =
+      tk .direction m.direction :: ((if m.name.isEmpty then [] else [tk .msgName m.name]) ++
+        (itemToks m.item ++ [tk .msgEnd [46], eofTok])) := by
+    rw [hdirPart, hT, hnamePart tl, ← hT, htail]
+  rcases (show m.waitBit = 0 ∨ m.waitBit = 1 ∨ m.waitBit = 2 by omega) with hw | hw | hw
+  · have h1 : (m.waitBit == 1) = false := by rw [hw]; decide
+    have h2 : (m.waitBit == 2) = false := by rw [hw]; decide
+    simp only [h1, h2, Bool.false_eq_true, if_false, List.nil_append]
+    have := hsf (m.direction ++ ((if m.name.isEmpty then [] else 32 :: m.name) ++
+          (if m.item.isEmpty then [10, 46] else [10] ++ m.item.print ++ [10, 46])))
+    simp only [List.cons_append, List.nil_append] at this hrest ⊢
+    rw [this, hrest]
+    simp
+  · have h1 : (m.waitBit == 1) = true := by rw [hw]; decide
+    simp only [h1, if_true]
+    have := hsf (87 :: ([32] ++ (m.direction ++ ((if m.name.isEmpty then [] else 32 :: m.name) ++
+          (if m.item.isEmpty then [10, 46] else [10] ++ m.item.print ++ [10, 46])))))
+    have hwt := lex_header_tok ual [32] [87] ([32] ++ (m.direction ++ ((if m.name.isEmpty then [] else 32 :: m.name) ++
+          (if m.item.isEmpty then [10, 46] else [10] ++ m.item.print ++ [10, 46])))) .waitBit [87] .header 87 []
+      (by simp [isBlank]) rfl (by decide) (by decide) (by decide) (fun p hp => stepHeader_W p _ (by simpa using hp))
+    simp only [List.cons_append, List.nil_append] at this hwt hrest ⊢
+    rw [this, hwt, hrest]
+    simp
+  · have h1 : (m.waitBit == 1) = false := by rw [hw]; decide
+    have h2 : (m.waitBit == 2) = true := by rw [hw]; decide
+    simp only [h1, h2, Bool.false_eq_true, if_false, if_true]
+    have := hsf (91 :: 87 :: 93 :: ([32] ++ (m.direction ++ ((if m.name.isEmpty then [] else 32 :: m.name) ++
+          (if m.item.isEmpty then [10, 46] else [10] ++ m.item.print ++ [10, 46])))))
+    have hwt := lex_header_tok ual [32] [91, 87, 93] ([32] ++ (m.direction ++ ((if m.name.isEmpty then [] else 32 :: m.name) ++
+          (if m.item.isEmpty then [10, 46] else [10] ++ m.item.print ++ [10, 46])))) .waitBit [91, 87, 93] .header 91 [87, 93]
+      (by simp [isBlank]) rfl (by decide) (by decide) (by decide) (fun p hp => stepHeader_optW p _ (by simpa using hp))
+    simp only [List.cons_append, List.nil_append] at this hwt hrest ⊢
+    rw [this, hwt, hrest]
+    simp
+
+
+/-! ### no comment token among the printed tokens -/
+
+def notComment (t : Tok) : Bool := t.kind != .comment
+
+theorem slotToks_nc {α} (f : α → Tok) (hf : ∀ a, notComment (f a) = true) : ∀ xs : List (Slot α), ∀ t ∈ slotToks f xs, notComment t = true
+  | [], t, h => by simp [slotToks] at h
+  | .val a :: r, t, h => by
+    simp only [slotToks, List.mem_cons] at h
+    rcases h with rfl | h
+    · exact hf a
+    · exact slotToks_nc f hf r t h
+  | .var n :: r, t, h => by
+    simp only [slotToks, List.mem_cons] at h
+    rcases h with rfl | h
+    · rfl
+    · exact slotToks_nc f hf r t h
+
+theorem asciiSegs_nc : ∀ (r run : Bytes), ∀ t ∈ asciiSegs run r, notComment t = true := by
+  intro r run t ht
+  have := asciiSegs_value r run t ht
+  unfold notComment
+  cases hk : t.kind <;> (rw [hk] at this; revert this; decide)
+
+theorem arrayToks_nc {α} (ty : Bytes) (f : α → Tok) (hf : ∀ a, notComment (f a) = true) (xs : List (Slot α)) :
+    ∀ t ∈ arrayToks ty f xs, notComment t = true := by
+  intro t ht
+  simp only [arrayToks, List.mem_append] at ht
+  rcases ht with (h | h) | h
+  · simp only [List.mem_cons, List.not_mem_nil, or_false] at h
+    rcases h with rfl | rfl | rfl <;> rfl
+  · exact slotToks_nc f hf xs t h
+  · simp only [List.mem_cons, List.not_mem_nil, or_false] at h
+    subst h; rfl
+
+mutual
+theorem itemToks_nc : ∀ (t : Tmpl), ∀ x ∈ itemToks t, notComment x = true
+  | .list xs, x, h => by
+    simp only [itemToks, List.mem_append, List.mem_cons, List.mem_singleton] at h
+    rcases h with ((h | h) | h) | h
+    · rcases h with rfl | rfl | h
+      · rfl
+      · rfl
+      · simp at h
+    · split at h
+      · simp at h
+      · simp only [List.mem_singleton] at h; subst h; rfl
+    · exact slotsToks_nc xs x h
+    · rcases h with rfl | h
+      · rfl
+      · simp at h
+  | .ascii sv, x, h => by
+    simp only [itemToks] at h
+    split at h
+    · simp only [List.mem_cons] at h
+      rcases h with rfl | rfl | rfl | rfl | h
+      · rfl
+      · rfl
+      · rfl
+      · rfl
+      · simp at h
+    · simp only [List.mem_append, List.mem_cons, List.mem_singleton] at h
+      rcases h with (h | h) | h
+      · rcases h with rfl | rfl | h
+        · rfl
+        · rfl
+        · simp at h
+      · exact asciiSegs_nc sv [] x h
+      · rcases h with rfl | h
+        · rfl
+        · simp at h
+  | .asciiVar n mn mx, x, h => by
+    simp only [itemToks, boundsToks, List.mem_append, List.mem_cons, List.mem_singleton] at h
+    rcases h with (h | h) | h
+    · rcases h with rfl | rfl | h
+      · rfl
+      · rfl
+      · simp at h
+    · split at h
+      · simp at h
+      · simp only [List.mem_singleton] at h; subst h; rfl
+    · rcases h with rfl | rfl | h
+      · rfl
+      · rfl
+      · simp at h
+  | .binary zs, x, h => arrayToks_nc _ _ (fun _ => rfl) zs x (by simpa [itemToks] using h)
+  | .boolean zs, x, h => arrayToks_nc _ _ (fun _ => rfl) zs x (by simpa [itemToks] using h)
+  | .int w zs, x, h => arrayToks_nc _ _ (fun _ => rfl) zs x (by simpa [itemToks] using h)
+  | .uint w zs, x, h => arrayToks_nc _ _ (fun _ => rfl) zs x (by simpa [itemToks] using h)
+  | .float w zs, x, h => arrayToks_nc _ _ (fun _ => rfl) zs x (by simpa [itemToks] using h)
+  | .empty, x, h => by simp [itemToks] at h
+theorem slotsToks_nc : ∀ (xs : Slots), ∀ x ∈ slotsToks xs, notComment x = true
+  | .nil, x, h => by simp [slotsToks] at h
+  | .item t r, x, h => by
+    simp only [slotsToks, List.mem_append] at h
+    rcases h with h | h
+    · exact itemToks_nc t x h
+    · exact slotsToks_nc r x h
+  | .var n r, x, h => by
+    simp only [slotsToks, List.mem_cons] at h
+    rcases h with rfl | h
+    · split <;> rfl
+    · exact slotsToks_nc r x h
+end
+
+theorem msgToks_nc (m : Msg) : ∀ x ∈ msgToks m ++ [eofTok], notComment x = true := by
+  intro x h
+  simp only [msgToks, List.mem_append, List.mem_cons, List.mem_singleton] at h
+  rcases h with (rfl | h) | h
+  · rfl
+  · rcases h with h | rfl | h
+    · split at h
+      · simp at h; subst h; rfl
+      · split at h
+        · simp at h; subst h; rfl
+        · simp at h
+    · rfl
+    · rcases h with h | h | h
+      · split at h
+        · simp at h
+        · simp at h; subst h; rfl
+      · exact itemToks_nc m.item x h
+      · rcases h with rfl | h
+        · rfl
+        · simp at h
+  · rcases h with rfl | h
+    · rfl
+    · simp at h
+
+theorem filter_all {l : List Tok} (h : ∀ x ∈ l, notComment x = true) : l.filter notComment = l := by
+  induction l with
+  | nil => rfl
+  | cons a r ih =>
+    simp only [List.filter_cons, h a (by simp), if_true]
+    rw [ih (fun x hx => h x (by simp [hx]))]
+
+
+/-! ### a sufficient condition for `NameOK` -/
+
+/-- visible 7-bit character other than `/` -/
+def nameByte (c : Nat) : Bool := decide (33 ≤ c) && decide (c ≤ 126) && c != 47
+
+theorem scanName_simple : ∀ (r more : Bytes) (fuel : Nat), (∀ c ∈ r, nameByte c = true) → r.length < fuel →
+    scanName fuel (r ++ 10 :: more) = r := by
+  intro r
+  induction r with
+  | nil =>
+    intro more fuel _ hf
+    cases fuel with
+    | zero => omega
+    | succ k => simp [scanName, Utf8.decodeRune, Utf8.isSpace]
+  | cons c r ih =>
+    intro more fuel hall hf
+    cases fuel with
+    | zero => omega
+    | succ k =>
+      have hc := hall c (by simp)
+      simp only [nameByte, Bool.and_eq_true, decide_eq_true_eq, bne_iff_ne, ne_eq] at hc
+      have hdec : Utf8.decodeRune (c :: (r ++ 10 :: more)) = (c, 1) := by
+        have : c < 128 := by omega
+        simp [Utf8.decodeRune, this]
+      have hsp : Utf8.isSpace c = false := by simp [Utf8.isSpace]; omega
+      have hsw : startsWith [47, 47] (c :: (r ++ 10 :: more)) = false := by
+        cases r <;> simp [startsWith, hc.2]
+      simp only [List.cons_append, scanName, hdec, hsp, Bool.false_eq_true, if_false, hsw, List.take, List.drop]
+      rw [ih more k (fun x hx => hall x (by simp [hx])) (by simpa using hf)]
+      simp
+
+/-- a name of visible 7-bit characters without `/`, not starting like another header token, is
+read as one name -/
+theorem nameOK_of_simple (c : Nat) (r : Bytes) (hc : nameByte c = true) (hr : ∀ x ∈ r, nameByte x = true)
+    (hfirst : c ≠ 83 ∧ c ≠ 115 ∧ c ≠ 87 ∧ c ≠ 119 ∧ c ≠ 91 ∧ c ≠ 72 ∧ c ≠ 104 ∧ c ≠ 46 ∧ c ≠ 60) : NameOK (c :: r) := by
+  right
+  intro ual more
+  have hcb := hc
+  simp only [nameByte, Bool.and_eq_true, decide_eq_true_eq, bne_iff_ne, ne_eq] at hcb
+  refine lex_header_tok ual [32] (c :: r) (10 :: more) .msgName (c :: r) .header c r (by simp [isBlank]) rfl
+    (by simp [isBlank]; omega) (by simp [Utf8.isSpace]; omega) (by omega) ?_
+  intro p hp
+  obtain ⟨h1, h2, h3, h4, h5, h6, h7, h8, h9⟩ := hfirst
+  have hdec : Utf8.decodeRune (c :: (r ++ 10 :: more)) = (c, 1) := by
+    have : c < 128 := by omega
+    simp [Utf8.decodeRune, this]
+  have hsw : startsWith [47, 47] (c :: (r ++ 10 :: more)) = false := by
+    cases r <;> simp [startsWith, hcb.2]
+  have hsf : matchSF (c :: (r ++ 10 :: more)) = none := by simp [matchSF, h1, h2]
+  have hmw : matchW (c :: (r ++ 10 :: more)) = none := by
+    unfold matchW
+    split <;> simp_all
+  have hmd : matchDir (c :: (r ++ 10 :: more)) = none := by simp [matchDir, h6, h7]
+  have hscan := scanName_simple r more (c :: (r ++ 10 :: more)).length hr (by simp; omega)
+  unfold stepHeader
+  rw [hp]
+  simp only [List.cons_append, hsw, Bool.false_eq_true, if_false, hsf, hmw, hmd, hdec]
+  have hb46 : (c == 46) = false := by simpa using h8
+  have hb60 : (c == 60) = false := by simpa using h9
+  simp only [hb46, hb60, Bool.false_eq_true, if_false, Nat.max_self, List.take, List.drop, hscan]
+  simp
+
 end Sml
 end Secs
